@@ -105,17 +105,28 @@ var blocksMode = false
 // paginated accessor would cut off)
 var manyBatches = false
 
+// floodMode: a backlog on four or five tokens of one chain at the same time (relayers down, a halt): every token of the chain has about
+// a hundred or more pooled transfers when the BeginBlocker of an even height batches them
+var floodMode = false
+
 // consistentExec: with -hostile, keep the reported executions within what the external side can do (a custody
 // ledger is only meaningful for executions the custody could have made)
 var consistentExec = false
+
+// noCapDeposit: deposits are not capped below 2^255 of hub value per denom, so that refunds and mints can run into the
+// bank's 256-bit supply limit (the C05 stream for the expiry refund that used to panic out of the EndBlocker).
+var noCapDeposit = false
 var lastCaseHashes []string
 var lastCaseShadowDiff = -1
 
 func genTokens(rng *Rng) []*types.TokenInfo {
-	prefixIds = (rng.Chance(1, 5) || directed) && !genesisMode
+	prefixIds = (rng.Chance(1, 5) || directed) && !genesisMode && !floodMode
 	sharedIds := !prefixIds && rng.Chance(1, 4)
-	denoms := []string{"hub", "usdx", "eth"}
+	denoms := []string{"hub", "usdx", "eth", "dai", "wbtc"}
 	nd := 1 + rng.Intn(3)
+	if floodMode {
+		nd = 4 + rng.Intn(2)
+	}
 	if prefixIds && nd < 2 {
 		nd = 2
 	}
@@ -131,7 +142,7 @@ func genTokens(rng *Rng) []*types.TokenInfo {
 	}
 	for d := 0; d < nd; d++ {
 		for _, ch := range []string{"minter", "ethereum", "bsc"} {
-			if ch != "minter" && !prefixIds && rng.Chance(1, 4) {
+			if ch != "minter" && !prefixIds && !floodMode && rng.Chance(1, 4) {
 				continue
 			}
 			ext := ""
@@ -288,7 +299,7 @@ func runHubCase(seed uint64, nOps int, hostile bool, gov bool, restart bool, sta
 	// outside what the bridge can represent at all.
 	deposited := map[string]*big.Int{}
 	capDeposit := func(t *types.TokenInfo, amt *big.Int) *big.Int {
-		if t == nil || amt.Sign() <= 0 {
+		if t == nil || amt.Sign() <= 0 || noCapDeposit {
 			return amt
 		}
 		hv := new(big.Int).Set(amt)
@@ -533,6 +544,46 @@ func runHubCase(seed uint64, nOps int, hostile bool, gov bool, restart bool, sta
 				do(&HubOp{Kind: 6})
 				inBlock = false
 			}
+			continue
+		}
+		if floodMode && !manyDone && inBlock && funding == 0 {
+			manyDone = true
+			ch := []string{"ethereum", "bsc", "minter"}[rng.Intn(3)]
+			ts := tokensOn(ch)
+			// fund user 0 with every token of the chain, applied by this block's EndBlocker
+			for _, t := range ts {
+				n, h := nextEvent(ch)
+				amt := new(big.Int).Mul(big.NewInt(900), pow10(int(t.ExternalDecimals)))
+				do(&HubOp{Kind: 4, Chain: ch, Ev: &HubEvent{Kind: 1, Nonce: n, Coin: t.ExternalTokenId, Amount: amt, Sender: ethAddrOf(0xe0, 0),
+					Receiver: userAddr(0).String(), Height: h, TxHash: fmt.Sprintf("0xflood%s%d", ch, n)}})
+			}
+			do(&HubOp{Kind: 6})
+			height++
+			timeMs += 5000
+			do(&HubOp{Kind: 5, Height: height, TimeMs: timeMs})
+			for _, t := range ts {
+				nb := 100 + rng.Intn(3)*6
+				for i := 0; i < nb; i++ {
+					txCounter++
+					do(&HubOp{Kind: 1, Sender: userAddr(0).String(), Chain: ch, Recipient: ethAddrOf(0xe0, rng.Intn(3)), Denom: t.Denom,
+						Amount: new(big.Int).Add(pow10(18), big.NewInt(int64(rng.Intn(1000)))), Fee: new(big.Int).Mul(pow10(15), big.NewInt(int64(1+rng.Intn(50)))), TxBytes: []byte(fmt.Sprintf("tx%d", txCounter))})
+				}
+			}
+			// up to the BeginBlocker of the next even height, which batches the pool
+			for k := 0; k < 2; k++ {
+				do(&HubOp{Kind: 6})
+				height++
+				timeMs += 5000
+				do(&HubOp{Kind: 5, Height: height, TimeMs: timeMs})
+			}
+			full := 0
+			for _, b := range batchesOf(ch) {
+				if len(b.Transactions) >= 100 {
+					full++
+				}
+			}
+			stats["flood_full_batches"] += full
+			stats["floods"]++
 			continue
 		}
 		if manyBatches && !manyDone && inBlock && funding == 0 {
@@ -802,13 +853,14 @@ func runHubCase(seed uint64, nOps int, hostile bool, gov bool, restart bool, sta
 			hostileExec := hostile && !consistentExec // executions the contract / the multisig could not have made
 			maxH := uint64(0)
 			// the external side only executes what it can: on ethereum/bsc a batch whose nonce is above the
-			// token's last executed nonce; on Minter the oldest pending batch (multisig nonce order)
+			// token's last executed nonce; on Minter any pending batch, once
 			sort.Slice(bs, func(i, j int) bool { return bs[i].BatchNonce < bs[j].BatchNonce })
 			if !hostileExec {
 				var ok []*types.BatchTx
 				for _, b := range bs {
 					if ch == "minter" {
-						if len(ok) == 0 && b.BatchNonce > lastExec[ch+"|"] {
+						// the multisig pays out whichever pending batch the relayers submit: any order, each batch once
+						if lastExec[fmt.Sprintf("minter#%d", b.BatchNonce)] == 0 {
 							ok = append(ok, b)
 						}
 					} else if b.BatchNonce > lastExec[ch+"|"+b.ExternalTokenId] && b.Timeout > extHeight[ch] {
@@ -827,7 +879,7 @@ func runHubCase(seed uint64, nOps int, hostile bool, gov bool, restart bool, sta
 					maxH = b.Timeout - 1 // the contract requires block.number < timeout
 				}
 				if ch == "minter" {
-					lastExec[ch+"|"] = bn
+					lastExec[fmt.Sprintf("minter#%d", bn)] = 1
 				} else {
 					lastExec[ch+"|"+coin] = bn
 				}
